@@ -73,6 +73,18 @@ Proof.
 Qed.
 Print Assumptions C09_served_by_cyclic_distance.
 
+(* Ownership changes only on an edge at which the bus is not held, and only to an initiator that is requesting at that
+   edge: nobody is ever handed a bus it did not ask for, whatever the state and the requests. *)
+Theorem C09_grant_moves_only_to_requesters : forall c is i, (0 < nintr c)%nat ->
+  next c (state_after c 0 is) i <> state_after c 0 is ->
+  bus_busy c (state_after c 0 is) i = false /\
+  req i (next c (state_after c 0 is) i) = true /\
+  (next c (state_after c 0 is) i < nintr c)%nat.
+Proof.
+  intros c is i H Hne. apply grant_moves_only_to_requesters; auto. apply grant_in_range; auto.
+Qed.
+Print Assumptions C09_grant_moves_only_to_requesters.
+
 (* ---- non-vacuity ---- *)
 Definition ft : feat :=
   {| f_err := false; f_rty := false; f_stall := false; f_lock := false; f_cti := false; f_bte := false |}.
